@@ -267,21 +267,22 @@ func (h *Hist) actSwapBadOut() {
 				break
 			}
 		}
-	case 4: // inactive or unknown keyset
+	case 4: // inactive or unknown keyset, at any position among the outputs
 		if len(outs) > 0 {
-			if len(h.tm.Order) > 1 && h.rng.Intn(2) == 0 {
-				outs[0].ks = (h.activeHandle() + 1) % int64(len(h.tm.Order))
+			k := h.rng.Intn(len(outs))
+			if len(h.tm.Order) > 1 && h.rng.Intn(3) != 0 {
+				outs[k].ks = (h.activeHandle() + 1 + int64(h.rng.Intn(len(h.tm.Order)-1))) % int64(len(h.tm.Order))
 			} else {
-				outs[0].ks = -2
+				outs[k].ks = -2
 			}
 		}
 	case 5: // amount that is not a key
 		if len(outs) > 0 {
-			outs[0].amount = 3
+			outs[h.rng.Intn(len(outs))].amount = 3
 		}
 	case 6: // B_ not a point
 		if len(outs) > 0 {
-			outs[0].point = false
+			outs[h.rng.Intn(len(outs))].point = false
 		}
 	case 7: // no outputs at all
 		outs = nil
@@ -565,13 +566,18 @@ func (h *Hist) actMintBad() {
 			d := outs[0]
 			outs = append(outs, d)
 		}
-	case 3:
+	case 3: // unknown or inactive keyset, at any position
 		if len(outs) > 0 {
-			outs[0].ks = -1
+			k := h.rng.Intn(len(outs))
+			if len(h.tm.Order) > 1 && h.rng.Intn(2) == 0 {
+				outs[k].ks = (h.activeHandle() + 1 + int64(h.rng.Intn(len(h.tm.Order)-1))) % int64(len(h.tm.Order))
+			} else {
+				outs[k].ks = -1
+			}
 		}
 	case 4:
 		if len(outs) > 0 {
-			outs[0].point = false
+			outs[h.rng.Intn(len(outs))].point = false
 		}
 	case 5:
 		outs = nil
@@ -629,8 +635,43 @@ func (h *Hist) actWatcher() {
 	h.OpWatcher(mode{}, mqs[h.rng.Intn(len(mqs))])
 }
 
+// actOvershoot: several quotes are requested while each still fits the balance limit, then all are paid and minted
+// (the limit is checked when a quote is requested, not when it is minted), then more quotes are requested
+func (h *Hist) actOvershoot() {
+	amounts := []uint64{9, 40, 64, 90, 100}
+	var qs []*hMintQ
+	n := 2 + h.rng.Intn(2)
+	for i := 0; i < n; i++ {
+		if q := h.OpMintQuote(mode{}, amounts[h.rng.Intn(len(amounts))], false, false, true); q != nil {
+			qs = append(qs, q)
+		}
+	}
+	for _, q := range qs {
+		h.EnvSettle(q)
+		h.OpMint(mode{}, q, h.freshOutputs(cashu.AmountSplit(q.amount)), 0, false)
+	}
+	h.nontrivial = true
+	h.OpBalance(mode{})
+	h.OpInfo(mode{})
+	h.OpMintQuote(mode{}, amounts[h.rng.Intn(len(amounts))], false, false, true)
+	h.OpMintQuote(mode{}, 1, false, false, true)
+}
+
+// actInfoCycle: info is polled, value leaves through a melt, info is polled again
+func (h *Hist) actInfoCycle() {
+	h.OpInfo(mode{})
+	h.OpBalance(mode{})
+	h.actMelt(false)
+	h.OpInfo(mode{})
+	h.OpMintQuote(mode{}, 1, false, false, true)
+}
+
 func (h *Hist) act(name string, fees []uint) {
 	switch name {
+	case "overshoot":
+		h.actOvershoot()
+	case "info-cycle":
+		h.actInfoCycle()
 	case "fund":
 		h.actFund(h.rng.Intn(2) == 0, h.rng.Intn(4) == 0)
 	case "swap":
@@ -746,6 +787,6 @@ func init() {
 		rule: "histories of mint/swap/melt incl. failed and pending melts, rotations, restarts, with state checks and restore queries mixing known, unknown and repeated entries in random order; non-trivial = a query containing a spent or pending or signed entry"}))
 	register("c16-hist", "C16", histStream(profile{prop: "C16", histQ: 150, histT: 2500, minOps: 8, maxOps: 30, proj: 1,
 		fees: []uint{0, 100}, mppProb: 10, limits: true,
-		w: weightsWith(map[string]int{"balance": 16, "info": 12, "quote-bad": 10, "fund": 20, "melt": 10, "swap": 10}),
+		w: weightsWith(map[string]int{"balance": 16, "info": 12, "quote-bad": 10, "fund": 20, "melt": 10, "swap": 10, "overshoot": 8, "info-cycle": 10}),
 		rule: "histories under limit configurations (unset / small / at the boundary) with balance and info queries and quote requests near 2^63 and 2^64; non-trivial = a limit was configured"}))
 }
